@@ -236,7 +236,8 @@ theorem drop_builtin_override_returns_global (s : Store) (k : Key) (hk : ahas k 
 (the removal pass must not delete a top-level option that still has children) -/
 theorem update_project_options_keeps_parentCurrent (sub : Str) (objs : List (Key × Obj)) (s : Store)
     (hw : Wf s) (hpc : ParentCurrent s) (hn : ∀ kv ∈ objs, kv.2.parent = none)
-    (hkeep : ∀ k id, alookup k (M.forEach (updateOne sub) objs s).2.options = some id →
+    (hkeep : ∀ k id o pid, alookup k (M.forEach (updateOne sub) objs s).2.options = some id →
+      (M.forEach (updateOne sub) objs s).2.heap[id]? = some o → o.parent = some pid →
       goneKey objs (M.forEach (updateOne sub) objs s).2 sub k.asRoot = false) :
     ParentCurrent (updateProjectOptions sub objs s).2 :=
   MesonModel.Options.update_project_options_keeps_parentCurrent sub objs s hw hpc hn hkeep
